@@ -180,4 +180,92 @@ theorem loopHeader_summary (k n : Nat) (hn : 0 < n) (s : St) (rest : List Nat) (
     exact ⟨h0.1, .inr rfl, ⟨fun _ => ⟨b.1, b.2.1⟩, fun _ => rfl⟩, fun _ => ⟨b.2.2.2, b.2.2.1⟩,
       fun h => absurd h DUP_ne_MEMORY_ERROR.symm⟩
 
+-- ---------------------------------------------------------------------------------------------------------------
+-- cif_container_get_all_loops
+
+def countTrueB : List Bool → Nat
+  | [] => 0
+  | b :: bs => (if b then 1 else 0) + countTrueB bs
+
+/-- requests of the row loop: a node per loop, a string per category -/
+def allLoopsRowsAllocs (cats : List Bool) : Nat := cats.length + countTrueB cats
+
+theorem allLoopsRows_spec (k : Nat) : ∀ (cats : List Bool) (done : List (Nat × Option Nat)) (s : St) (L : List Nat),
+    Inv s (hdrIds done ++ L) →
+    Inv (allLoopsRows k cats done s).2.2 (hdrIds (allLoopsRows k cats done s).2.1 ++ L) ∧
+    (((allLoopsRows k cats done s).1 = true ∧ Good k (allLoopsRowsAllocs cats) s (allLoopsRows k cats done s).2.2) ∨
+      ((allLoopsRows k cats done s).1 = false ∧ Bad k (allLoopsRowsAllocs cats) s (allLoopsRows k cats done s).2.2))
+  | [], done, s, L, h => ⟨h, .inl ⟨rfl, Good.refl k s⟩⟩
+  | c :: rest, done, s, L, h => by
+    have hN : allLoopsRowsAllocs (c :: rest) = 1 + (if c then 1 else 0) + allLoopsRowsAllocs rest := by
+      simp only [allLoopsRowsAllocs, List.length_cons, countTrueB]; omega
+    rw [hN]
+    simp only [allLoopsRows]
+    rcases alloc_cases k s with ⟨hk, ha⟩ | ⟨hk, ha⟩ <;> simp only [ha]
+    · exact ⟨h.fail, .inr ⟨trivial, (Bad.alloc hk).mono (by omega)⟩⟩
+    · have g1 := Good.alloc hk
+      have i1 := h.alloc
+      generalize ({ count := s.count + 1, evs := s.evs ++ [.alloc (s.count + 1)] } : St) = s1 at g1 i1 ⊢
+      generalize s.count + 1 = nd at g1 i1 ⊢
+      cases c with
+      | false =>
+        simp only [Bool.false_eq_true, if_false]
+        have i2 : Inv s1 (hdrIds (done ++ [(nd, none)]) ++ L) := by
+          rw [hdrIds_append]; exact i1.perm (by simp only [hdrIds, Option.toList]; perm_ac)
+        have ih := allLoopsRows_spec k rest (done ++ [(nd, none)]) s1 L i2
+        refine ⟨ih.1, ?_⟩
+        rcases ih.2 with ⟨f1, f2⟩ | ⟨f1, f2⟩
+        · exact .inl ⟨f1, g1.trans' f2 (by omega)⟩
+        · exact .inr ⟨f1, g1.bad' f2 (by omega)⟩
+      | true =>
+        simp only [if_true]
+        rcases alloc_cases k s1 with ⟨hk, ha⟩ | ⟨hk, ha⟩ <;> simp only [ha]
+        · refine ⟨?_, .inr ⟨trivial, g1.bad' (Bad.alloc hk) (by omega)⟩⟩
+          rw [hdrIds_append]
+          exact i1.fail.perm (by simp only [hdrIds, Option.toList]; perm_ac)
+        · have g2 := g1.trans (Good.alloc hk)
+          have i2 : Inv { count := s1.count + 1, evs := s1.evs ++ [.alloc (s1.count + 1)] }
+              (hdrIds (done ++ [(nd, some (s1.count + 1))]) ++ L) := by
+            rw [hdrIds_append]; exact i1.alloc.perm (by simp only [hdrIds, Option.toList]; perm_ac)
+          have ih := allLoopsRows_spec k rest (done ++ [(nd, some (s1.count + 1))]) _ L i2
+          refine ⟨ih.1, ?_⟩
+          rcases ih.2 with ⟨f1, f2⟩ | ⟨f1, f2⟩
+          · exact .inl ⟨f1, g2.trans' f2 (by omega)⟩
+          · exact .inr ⟨f1, g2.bad' f2 (by omega)⟩
+
+def getAllLoopsAllocs (cats : List Bool) : Nat := allLoopsRowsAllocs cats + 1
+
+theorem getAllLoops_summary (k : Nat) (cats : List Bool) (s : St) (rest : List Nat) (hb : Balanced s.evs rest)
+    (hc : ∀ i ∈ rest, i ≤ s.count) :
+    Balanced (getAllLoops k cats s).2.2.evs
+      ((match (getAllLoops k cats s).2.1 with | some (arr, nodes) => arr :: hdrIds nodes | none => []) ++ rest) ∧
+    ((getAllLoops k cats s).1 = OK ∨ (getAllLoops k cats s).1 = MEMORY_ERROR) ∧
+    ((getAllLoops k cats s).1 = OK ↔ (getAllLoops k cats s).2.1.isSome) ∧
+    ((getAllLoops k cats s).1 = MEMORY_ERROR ↔ s.count < k ∧ k ≤ s.count + getAllLoopsAllocs cats) ∧
+    ((getAllLoops k cats s).1 = MEMORY_ERROR →
+        failIds (getAllLoops k cats s).2.2.evs = failIds s.evs ++ [k] ∧ (getAllLoops k cats s).2.2.count = k) ∧
+    ((getAllLoops k cats s).1 = OK → failIds (getAllLoops k cats s).2.2.evs = failIds s.evs ∧
+        (getAllLoops k cats s).2.2.count = s.count + getAllLoopsAllocs cats) := by
+  simp only [getAllLoops, getAllLoopsAllocs]
+  have ⟨a1, a2⟩ := allLoopsRows_spec k cats [] s rest (show Inv s (hdrIds [] ++ rest) from ⟨hb, hc⟩)
+  generalize allLoopsRows k cats [] s = r at a1 a2 ⊢
+  obtain ⟨ok, done, s1⟩ := r
+  simp only at a1 a2
+  rcases a2 with ⟨e1, g0⟩ | ⟨e1, b0⟩ <;> subst e1 <;> simp only
+  · rcases alloc_cases k s1 with ⟨hk, ha⟩ | ⟨hk, ha⟩ <;> simp only [ha]
+    · have ⟨f1, f2⟩ := freeHeader_spec done _ rest a1.fail
+      have b := (g0.bad (Bad.alloc hk)).same f2
+      unfold Bad at b
+      exact ⟨by simpa using f1.1, .inr (by trivial), by simp [OK_ne_MEMORY_ERROR], ⟨fun _ => ⟨b.1, b.2.1⟩, fun _ => by trivial⟩,
+        fun _ => ⟨b.2.2.2, b.2.2.1⟩, fun h => absurd h OK_ne_MEMORY_ERROR⟩
+    · have g := g0.trans (Good.alloc hk)
+      unfold Good at g
+      exact ⟨a1.alloc.1, .inl (by trivial), by simp, ⟨fun h => absurd h OK_ne_MEMORY_ERROR.symm, fun h => absurd h g.2.1⟩,
+        fun h => absurd h OK_ne_MEMORY_ERROR.symm, fun _ => ⟨g.2.2, g.1⟩⟩
+  · have ⟨f1, f2⟩ := freeHeader_spec done _ rest a1
+    have b := (b0.same f2).mono (Nat.le_succ _)
+    unfold Bad at b
+    exact ⟨by simpa using f1.1, .inr (by trivial), by simp [OK_ne_MEMORY_ERROR], ⟨fun _ => ⟨b.1, b.2.1⟩, fun _ => by trivial⟩,
+      fun _ => ⟨b.2.2.2, b.2.2.1⟩, fun h => absurd h OK_ne_MEMORY_ERROR⟩
+
 end CifModel.Lemmas.Ladder
